@@ -38,7 +38,9 @@ def check_instance(inst, F, ctx, extra):
     c08.check_instance(inst, F, ctx, None)
     clean = extra['clean'].get(inst.id)
     if clean is None:
-        ctx.error('instance %s missing from the clean stage' % inst.id); return
+        if not extra.get('clean_failed'):
+            ctx.error('instance %s missing from the clean stage' % inst.id)
+        return          # the clean context itself did not compile: reported once as witness-rejected by main()
     mine = callee_seq(inst)
     if mine != clean:
         diff = [k for k in sorted(set(mine) | set(clean)) if mine.get(k) != clean.get(k)]
@@ -109,7 +111,18 @@ def main(tier, seed, t0):
         clean = {}
         for j in cjobs:
             clean.update(clean_worker(j))
-    hctx, n = runner.run_instances('props.c16', hd, extra={'clean': clean})
+    # the plain contexts of the corpus are program contexts too (module scope, function-body scope, an enum named like a
+    # core item, a second derive next to it): a witness that does not compile there is a violation of this property as well
+    with open(os.path.join(d, 'errors.json')) as f:
+        cerrs = json.load(f)
+    with open(os.path.join(d, 'instances.json')) as f:
+        allrecs = {r['id']: r for r in json.load(f)}
+    for e in cerrs['errors']:
+        rec = allrecs.get(e.get('instance'))
+        ctx.violation('witness-rejected', runner._FakeInst(rec) if rec else None, 'derive',
+                      'a supported declaration/configuration does not compile%s: %s%s' % (' (context: %s)' % rec['kind'] if rec else '', e['message'], (' [%s]' % e['code']) if e.get('code') else ''),
+                      key='C16/witness-rejected/%s' % ((e.get('code') or e['message'])[:60]), kind='witness-rejected')
+    hctx, n = runner.run_instances('props.c16', hd, extra={'clean': clean, 'clean_failed': bool(cerrs['errors'])})
     ctx.merge(hctx)
     ctx.sample({'templates_linted': n_t, 'fixture_flags': flagged})
     ctx.sample({'hostile_module_header': 'pub struct Option; pub struct Some; pub struct None; ... pub trait Iterator {} ... pub mod core {} pub mod std {} macro_rules! panic/unreachable/matches/write/assert ... in a #![no_std] crate, #![no_implicit_prelude] module', 'instances': n})
